@@ -119,17 +119,34 @@ def enc_int(i):
 UNKNOWN_CELL = 4 * 10**9 + 3
 
 
+MONTHS = ["jan", "feb", "mar", "apr", "may", "jun", "jul", "aug", "sep", "oct", "nov", "dec"]
+
+
+def raw_text(v):
+    """the raw cell text (Row.data) of a non-integer, non-None typed value: a string is itself, a date-time is
+    D-mon-YYYY with the time appended unless it is midnight (naive re-statement of tsdb.format)"""
+    if "str" in v:
+        return uncps(v["str"])
+    y, mo, d, H, M, S = v["date"]
+    text = "%d-%s-%04d" % (d, MONTHS[mo - 1], y)
+    if (H, M, S) != (0, 0, 0):
+        text += " %02d:%02d:%02d" % (H, M, S)
+    return text
+
+
 def cell_code(key, ids, add=False):
+    """ids: raw cell text -> index in the codec table handed to the composed model"""
     v = json.loads(key)
     if v is None:
         return 0
     if "int" in v:
         return enc_int(int(v["int"]))
-    if key not in ids:
+    text = raw_text(v)
+    if text not in ids:
         if not add:
             return UNKNOWN_CELL
-        ids[key] = len(ids)
-    return 4 * ids[key] + 3
+        ids[text] = len(ids)
+    return 4 * ids[text] + 3
 
 
 def sl_of(a):
@@ -343,6 +360,24 @@ class ScriptedCPU(interface.Processor):
         if "chart" in tmpl:
             resp["chart"] = [{k: py_val(v) for k, v in e.items()} for e in tmpl["chart"]]
         return resp
+
+
+def raw_lines(d, name, tx, gzp):
+    """the bytes of the active relation file, as text lines ending at LF only (code points)"""
+    import gzip as _gzip
+    use_gz = gzp and (not tx or os.stat(os.path.join(d, name + ".gz")).st_mtime > os.stat(os.path.join(d, name)).st_mtime)
+    if use_gz:
+        with _gzip.open(os.path.join(d, name + ".gz"), "rb") as fh:
+            data = fh.read()
+    elif tx:
+        with open(os.path.join(d, name), "rb") as fh:
+            data = fh.read()
+    else:
+        return None
+    parts = data.decode("utf-8").split("\n")
+    if parts and parts[-1] == "":
+        parts.pop()
+    return [cps(x) for x in parts]
 
 
 ERRS = ((IndexError, "IndexError"), (itsdb.ITSDBError, "ITSDBError"), (ValueError, "ValueError"),
@@ -912,6 +947,7 @@ def negindex_cases():
 
 class C10(Check):
     pid = "C10"
+    props_modules = ["Verif.C10.Props", "Verif.C10.ComposeProps"]
     quick_cases = 340
     search_budget = {"quick": 200, "thorough": 5000}
     thorough_cases = 3000
@@ -928,9 +964,13 @@ class C10(Check):
             "(quick) / all <=2 plus 3 400 sampled of length 3 (thorough) ops from a 24-op menu on 3 stored rows, plain and gzip alternating, "
             "followed by commit, commit, reopen.  A case is non-trivial if it has a step; distinct by JSON text.")
     assumptions = [
-        "a relation file is modelled as the list of its rows; gzip is the identity on content (flag only)",
-        "record codec (format/join/split/cast) is the identity on the generated typed values (C08); the oracle "
-        "checks it on the real files",
+        "abstract model (Props.lean): a relation file is the list of its rows, gzip a flag, the record codec the "
+        "identity; COMPOSED model (Compose.lean, ComposeProps.lean): the files are C09's (tsdb.write, plain/"
+        "compressed, one physical form), records C08's (escape/join/split/cast/format); bridge theorems: on "
+        "well-formed records the composed table is the abstract one; the driver runs both and the raw lines and "
+        "the physical form of every observed relation are compared with the real files after every step",
+        "well-formed record = right width, every cell an integer in an :integer column, None / a non-empty "
+        "string / a calendar-valid date-time in a column of its type (no coded default), interned once",
         "a fresh TestSuite / not yet loaded table is modelled as a synchronized table",
         "FieldMapper.map/cleanup, make_record and the _add_row flush loop are modelled in Lean (Mapper.lean) "
         "for a scripted parse processor; not modelled (generators stay away): responses with tokens, results "
@@ -1108,6 +1148,7 @@ class C10(Check):
             t.close()
             tx, gzp = os.path.exists(os.path.join(d, name)), os.path.exists(os.path.join(d, name + ".gz"))
             obs["files"][name] = [tx, gzp]
+            o["raw"] = raw_lines(d, name, tx, gzp)
             o["gz"] = bool(gzp and not tx)
             with tsdb.open(d, name) as fh:
                 with warnings.catch_warnings():
@@ -1283,8 +1324,9 @@ class C10(Check):
             tab = case["tables"].get(n, {"init": [], "gz": False})
             tables.append({"width": WIDTH[n], "file": [in_row(n, r) for r in tab["init"]],
                            "gz": bool(tab.get("gz")) and len(tab["init"]) > 0})
-        schema = [{"name": n, "fields": [{"name": f, "int": dt == ":integer", "key": ":key" in fl}
+        schema = [{"name": n, "fields": [{"name": f, "int": dt == ":integer", "key": ":key" in fl, "dt": dt}
                                          for f, dt, fl in fs]} for n, fs in SCHEMA_SPEC]
+        codec = [cps(text) for text, _ in sorted(ids.items(), key=lambda kv: kv[1])]
         steps = []
         for st in case["steps"]:
             k = st["k"]
@@ -1334,7 +1376,7 @@ class C10(Check):
                 qs.append(mq)
             m["qs"] = qs
             steps.append(m)
-        return {"tables": tables, "schema": schema, "steps": steps}
+        return {"tables": tables, "schema": schema, "codec": codec, "steps": steps}
 
     def model_expected(self, case, impl_res):
         sim, cid, in_row, ids = self.interner(case)
@@ -1357,8 +1399,10 @@ class C10(Check):
             if o.get("P") is not None:
                 P = [[{"it": [row(r) for r in ph[n]["it"]], "f": [row(r) for r in ph[n]["f"]], "tx": ph[n]["tx"]}
                       for n in NAMES] for ph in o["P"]]
+            R = {"e": o["e"], "T": [{"lines": o["T"][n]["raw"], "tx": o["files"][n][0], "gzf": o["files"][n][1],
+                                     "same": True} for n in NAMES if n in o["T"]]}
             out.append({"e": o["e"], "intx": o["intx"], "T": T,
-                        "Q": [exc(q, lambda rs: [row(r) for r in rs]) for q in o["Q"]], "P": P})
+                        "Q": [exc(q, lambda rs: [row(r) for r in rs]) for q in o["Q"]], "P": P, "R": R})
         return out
 
     def _ids_for(self, case):
